@@ -29,6 +29,12 @@
     O <of|from|fromMap> <kind|viewid[!b,…]> <va>*   %TypedArray%.of/from applied to a built-in or user constructor
     A <b> <ia> <ia>            buffer.slice(start, end)  (ArrayBuffer.prototype.slice)
 
+    Q <indexOf|lastIndexOf|includes> <v> <va> <ia>   search (explicit fromIndex or `_`)
+    k <v> <ia>                 v.at(index)
+    e <method> <v> <k!b,…|_>   every/some/find/findIndex/findLast/findLastIndex/forEach/reduce/reduceRight/values/entries:
+                               the values handed to the callback / yielded; call k detaches
+    J <join|toString|toLocaleString> <v> <b,…|_>   values parsed back from the string (the separator's toString detaches)
+
   <ia>  = `_` | <int>[!b,b…] | inf | -inf      <va> = x<hex16>[!b,…] | b<dec>[!b,…]
   <sp>  = `_` | <viewid>[!b,…]                  <cmp> = `_` | r[!b,…]
 -/
@@ -146,6 +152,24 @@ def parseOp (ws : List String) : Option Op :=
         | some k => some (Ctor.builtin k)
         | none => let (h, det) := splitBang c; h.toNat?.map (fun vid => Ctor.user vid det)
       pure (.of_ ct vs)
+  | ["Q", m, v, se, fr] => do
+      let mode ← match m with
+        | "indexOf" => some SearchMode.indexOf
+        | "lastIndexOf" => some SearchMode.lastIndexOf
+        | "includes" => some SearchMode.includes
+        | _ => none
+      pure (.search (← v.toNat?) mode (← parseVArg se).num (← parseIArg fr))
+  | ["k", v, i] => do
+      match ← parseIArg i with
+      | some i => pure (.at_ (← v.toNat?) i)
+      | none => none
+  | ["e", m, v, d] => do
+      let bwd := m == "findLast" || m == "findLastIndex" || m == "reduceRight"
+      if d == "_" then pure (.visit (← v.toNat?) bwd 1000000 [])
+      else
+        let (h, det) := splitBang d
+        pure (.visit (← v.toNat?) bwd (← h.toNat?) det)
+  | ["J", m, v, d] => do pure (.join (← v.toNat?) (if d == "_" then [] else parseDets d) (m == "toLocaleString"))
   | ["A", b, st, fi] => do pure (.abSlice (← b.toNat?) (← parseIArg st) (← parseIArg fi))
   | ["g", v, i] => do pure (.get (← v.toNat?) (← parseInt? i))
   | ["p", v, i, a] => do pure (.put (← v.toNat?) (← parseInt? i) (← parseVArg a))
@@ -182,6 +206,18 @@ def showNum : Num → String
   | .big i => "b" ++ toString i
   | .undef => "undef"
 
+def showItem : Option Num → String
+  | none => "undef"
+  | some n => showNum n
+
+/-- −0 is printed as "0" by Number::toString: join cannot tell them apart -/
+def normZero : Option Num → Option Num
+  | some (.dbl b) => if b == 2 ^ 63 then some (.dbl 0) else some (.dbl b)
+  | x => x
+
+def showVals (xs : List (Option Num)) : String :=
+  if xs.all (·.isNone) then "vals-empty" else "vals " ++ ",".intercalate (xs.map showItem)
+
 def showRes : Res → String
   | .ok => "ok"
   | .bad => "BAD-OP"
@@ -190,6 +226,8 @@ def showRes : Res → String
   | .undef => "undef"
   | .val n => "v:" ++ showNum n
   | .view o l => "view " ++ toString o ++ " " ++ toString l
+  | .bool b => if b then "true" else "false"
+  | .vals xs => showVals xs
 
 def showBuf : Option (List UInt8) → String
   | none => "D"
@@ -208,7 +246,10 @@ def stepLine (s : State) (line : String) : State × String :=
   match parseOp ws with
   | none => (s, "PARSE-ERROR")
   | some op =>
-    let r := step { s with log := [] } op
+    let r0 := step { s with log := [] } op
+    let r : Res × State := match op, r0.1 with
+      | .join .., .vals xs => (.vals (xs.map normZero), r0.2)
+      | _, _ => r0
     let flag := if touchesOk r.2 then "" else " MODEL-TOUCH-OUT-OF-BOUNDS"
     ({ r.2 with log := [] }, showRes r.1 ++ " | " ++ showState r.2 ++ flag)
 
